@@ -18,6 +18,14 @@ def T(quick, thorough, floor=200, **kw):
 
 
 PROPS = {
+    "C03": T(600, 15000,
+             rule="operation histories on GraphMap<N,u32,Ty,S> (N in i32 incl. negatives/extremes, (u8,u8), &str; directed/undirected; "
+                  "hashers RandomState, Fx and an all-keys-collide hasher; 20-300 ops: add_node, add_edge/Build::add_edge/update_edge "
+                  "biased to self-loops, reciprocal pairs and re-adding, remove_edge in either orientation, remove_node of hubs, weight "
+                  "updates via 3 routes, clear, extend, clone, into_graph/from_graph, absent-element calls) over 3-12 distinct keys, "
+                  "against a simple-graph model; full sweep of every query for every key and ordered pair after every operation, "
+                  "incl. the visit-trait views and node/edge indexing bijections; non-trivial = >=10 ops with >=1 effective removal; "
+                  "distinct = hash of (type config, op-kind sequence, final edge set)"),
     "C02": T(400, 10000, sites=["stable_reuse_vacant_node", "stable_reuse_vacant_edge", "stable_add_vacant_node"],
              t={"legs": ["debug", "release", "asan", "miri"], "asan_cases_per_shard": 1200, "miri_cases_per_shard": 3},
              rule="operation histories on StableGraph<u32,u32,Ty,Ix> (2 edge types x 4 index widths; 30-400 ops out of 15 kinds incl. "
